@@ -7,7 +7,18 @@ the interpolation conditions; they stay what they are exactly when the floor doe
 from pyvc.domains.coord import CoordDomain
 
 
+import z3
+M_ = z3.Int('M_dim')
+
+
 class Dom(CoordDomain):
+    def __init__(self, repo):
+        CoordDomain.__init__(self, repo)
+        from pyvc.domains.coord import N_
+        self.builtins['Model.n'] = lambda eng, n, a, k, st: N_
+        self.builtins['Model.m'] = lambda eng, n, a, k, st: M_
+        self.field_shapes[('Model', 'npt_so_far')] = 'int'
+
     def name_shape(self, name):
         if name == 's':
             return 'rvec'
@@ -28,9 +39,10 @@ def build(repo):
     D.contract('Model.interpolate_mini_models_svd', tags=['C16', 'C11'],
                params={'make_full_rank': 'bool', 'min_sing_val': 'real', 'sing_val_frac': 'real', 'max_jac_cond': 'real', 'verbose': 'bool', 'get_chg_J': 'bool',
                        'throw_error_on_nans': 'bool'},
-               requires=['max_jac_cond > 0', 'not G.set'],
+               requires=['max_jac_cond > 0', 'not G.set', 'self.npt_so_far >= 2'],
                modifies=['self.*', 'G.floor', 'G.sr', 'G.s0', 'G.set'], result=None,
-               ghost_after_assign={'floor_val': [('G.floor', 'floor_val'), ('G.sr', 's[r - 1]'), ('G.s0', 's[0]'), ('G.set', 'True')]},
+               # the rank index is taken from its definition (number of directions, capped by n and m), not from the local `r`
+               ghost_after_assign={'floor_val': [('G.floor', 'floor_val'), ('G.sr', 's[min(self.npt_so_far - 1, self.n(), self.m()) - 1]'), ('G.s0', 's[0]'), ('G.set', 'True')]},
                ensures=[('(C16, C11) the full-rank completion leaves the genuine singular values alone: when neither safety floor binds and sing_val_frac <= 1, the floor applied to the '
                          'singular values does not exceed the smallest genuine one, s[r-1] (A-lib: LA.svd returns them in descending order, non-negative):: '
                          'implies(G.set and sing_val_frac <= 1 and G.s0 >= G.sr and G.sr >= 0 and G.s0 / max_jac_cond <= G.sr and min_sing_val <= G.sr, G.floor <= G.sr)', 'C16', 'C11')])
